@@ -1492,3 +1492,292 @@ pub mod c16_validators {
         });
     }
 }
+
+// ------------------------------------------------------------------------------------------
+// C15 — `DZKPValidator::validated_seq_join` (agent b14, seed C15c): the REAL joined stream of a malicious DZKP validator
+// (batch size > 1: `validate_record(i)` completes only when the whole batch asked) or of the semi-honest validator
+// over scripted tasks.
+//
+// Request:  c15.vjoin <dzkp|sh> <n> <rpb> <op>…
+//   c<i> task i completes with Ok(i)     f<i> task i completes with Err(Internal)     p  one poll_next (no-op waker)
+// Response: one token per `p` (`P` | `o<i>` | `e` | `end` | `done` = polled after the end, not executed), then
+// `| drop=ok` / `| drop=unverified` (dropping the stream drops the validator: `ContextUnsafe` panic if a batch some of
+// whose records asked was never validated).
+//           c15.vcollect <dzkp|sh> <n> <rpb> <i|->   validated_seq_join(..).try_collect() on a real runtime: tasks < i
+// complete at once, task i fails at once, later tasks never complete. Response `ok:<n>` | `err` | `timeout`.
+pub mod c15_validated {
+    use std::{
+        future::Future,
+        pin::Pin,
+        sync::{Arc, Mutex},
+        task::{Context as TaskCtx, Poll},
+    };
+
+    use futures::{Stream, StreamExt, TryStreamExt, stream};
+
+    use crate::{
+        error::Error,
+        ipa_verif::proto::*,
+        protocol::context::{
+            Context, MaliciousContext, SemiHonestContext, TEST_DZKP_STEPS, UpgradableContext,
+            dzkp_validator::DZKPValidator,
+        },
+        sharding::NotSharded,
+        test_fixture::TestWorld,
+    };
+
+    /// 0 = not completed, 1 = Ok(index), 2 = Err(Internal)
+    type Script = Arc<Mutex<Vec<u8>>>;
+
+    struct Task {
+        i: usize,
+        script: Script,
+    }
+
+    impl Future for Task {
+        type Output = Result<usize, Error>;
+        fn poll(self: Pin<&mut Self>, _cx: &mut TaskCtx<'_>) -> Poll<Self::Output> {
+            match self.script.lock().unwrap()[self.i] {
+                0 => Poll::Pending,
+                1 => Poll::Ready(Ok(self.i)),
+                _ => Poll::Ready(Err(Error::Internal)),
+            }
+        }
+    }
+
+    fn tasks(n: usize, script: &Script) -> impl Stream<Item = Task> + Send + 'static {
+        let script = Arc::clone(script);
+        stream::iter((0..n).map(move |i| Task { i, script: Arc::clone(&script) }))
+    }
+
+    fn drive<'a, S>(mut joined: Pin<Box<S>>, script: &Script, ops: &[&str]) -> String
+    where
+        S: Stream<Item = Result<usize, Error>> + ?Sized + 'a,
+    {
+        let mut out: Vec<String> = vec![];
+        let mut ended = false;
+        for op in ops {
+            let (c, arg) = op.split_at(1);
+            match c {
+                "c" => script.lock().unwrap()[arg.parse::<usize>().unwrap()] = 1,
+                "f" => script.lock().unwrap()[arg.parse::<usize>().unwrap()] = 2,
+                "p" if ended => out.push("done".into()),
+                "p" => {
+                    let mut cx = TaskCtx::from_waker(futures::task::noop_waker_ref());
+                    match guarded(|| joined.as_mut().poll_next(&mut cx)) {
+                        Ok(Poll::Pending) => out.push("P".into()),
+                        Ok(Poll::Ready(Some(Ok(i)))) => out.push(format!("o{i}")),
+                        Ok(Poll::Ready(Some(Err(Error::Internal)))) => out.push("e".into()),
+                        Ok(Poll::Ready(Some(Err(e)))) => out.push(format!("err:{}", super::c16_batcher::err_tag(&e))),
+                        Ok(Poll::Ready(None)) => {
+                            ended = true;
+                            out.push("end".into());
+                        }
+                        // the stream ends by dropping the validator it kept alive: `ContextUnsafe` panic if a batch
+                        // some of whose records asked was never validated
+                        Err(p) if p.contains("ContextUnsafe") => {
+                            ended = true;
+                            out.push("end-unverified".into());
+                        }
+                        Err(p) => {
+                            ended = true;
+                            out.push(format!("panic:{}", p.chars().take(60).collect::<String>().replace(' ', "_")));
+                        }
+                    }
+                }
+                _ => panic!("harness: unknown op {op}"),
+            }
+        }
+        let dropped = match guarded(move || drop(joined)) {
+            Ok(()) => "ok".to_string(),
+            // `Drop for MaliciousDZKPValidator`: `is_verified().unwrap()` with a batch that was never validated
+            Err(p) if p.contains("ContextUnsafe") => "unverified".to_string(),
+            Err(p) => format!("panic:{}", p.chars().take(60).collect::<String>().replace(' ', "_")),
+        };
+        out.push("|".into());
+        out.push(format!("drop={dropped}"));
+        out.join(" ")
+    }
+
+    fn exec_vjoin(mal: MaliciousContext<'_, NotSharded>, sh: SemiHonestContext<'_>, t: &[&str]) -> String {
+        let n: usize = t[2].parse().unwrap();
+        let rpb: usize = t[3].parse().unwrap();
+        let script: Script = Arc::new(Mutex::new(vec![0u8; n]));
+        match t[1] {
+            "dzkp" => {
+                let v = mal.set_total_records(n).dzkp_validator(TEST_DZKP_STEPS, rpb);
+                drive(Box::pin(v.validated_seq_join(tasks(n, &script))), &script, &t[4..])
+            }
+            "sh" => {
+                let v = sh.set_total_records(n).dzkp_validator(TEST_DZKP_STEPS, rpb);
+                drive(Box::pin(v.validated_seq_join(tasks(n, &script))), &script, &t[4..])
+            }
+            k => panic!("harness: unknown validator kind {k}"),
+        }
+    }
+
+    fn exec_vcollect(mal: MaliciousContext<'_, NotSharded>, sh: SemiHonestContext<'_>, t: &[&str]) -> String {
+        let n: usize = t[2].parse().unwrap();
+        let rpb: usize = t[3].parse().unwrap();
+        let e: Option<usize> = t[4].parse().ok();
+        let script: Script = Arc::new(Mutex::new(
+            (0..n).map(|i| match e { Some(e) if i == e => 2, Some(e) if i > e => 0, _ => 1 }).collect(),
+        ));
+        let fmt1 = |r: Result<Result<Vec<usize>, Error>, String>| match r {
+            Err(_) => "timeout".to_string(),
+            Ok(Ok(v)) if v == (0..n).collect::<Vec<_>>() => format!("ok:{n}"),
+            Ok(Ok(v)) => format!("ok-wrong:{}", nat_list(&v)),
+            Ok(Err(Error::Internal)) => "err".into(),
+            Ok(Err(e)) => format!("err:{}", super::c16_batcher::err_tag(&e)),
+        };
+        // a join that does not complete is dropped after the timeout; its validator then panics (`ContextUnsafe`) if a
+        // record had asked for a validation that never came: still a timeout
+        let fmt = |r: Result<Result<Result<Vec<usize>, Error>, String>, String>| match r {
+            Err(p) if p.contains("ContextUnsafe") => "timeout".to_string(),
+            Err(p) => p,
+            Ok(r) => fmt1(r),
+        };
+        match t[1] {
+            "dzkp" => {
+                let v = mal.set_total_records(n).dzkp_validator(TEST_DZKP_STEPS, rpb);
+                fmt(guarded(|| block_on_timeout(8, v.validated_seq_join(tasks(n, &script)).try_collect::<Vec<usize>>())))
+            }
+            "sh" => {
+                let v = sh.set_total_records(n).dzkp_validator(TEST_DZKP_STEPS, rpb);
+                fmt(guarded(|| block_on_timeout(8, v.validated_seq_join(tasks(n, &script)).try_collect::<Vec<usize>>())))
+            }
+            k => panic!("harness: unknown validator kind {k}"),
+        }
+    }
+
+    fn script_line(kind: &str, n: usize, rpb: usize, ops: &[String]) -> String {
+        format!("c15.vjoin {kind} {n} {rpb} {}", ops.join(" "))
+    }
+
+    pub fn generate(rng: &mut Rng, thorough: bool) -> Vec<String> {
+        let mut out: Vec<String> = vec![];
+        // ---- boundary scripts first
+        for s in [
+            // one batch of four, the front task fails, the others never complete (seed C15c's demonstration)
+            "c15.vjoin dzkp 4 4 f0 p p",
+            "c15.vjoin sh 4 4 f0 p p",
+            // the error starts the second batch; the first batch is complete
+            "c15.vjoin dzkp 8 4 c0 c1 c2 c3 f4 p p p p p p p",
+            // the failing task completes late, the rest of its batch later or never
+            "c15.vjoin dzkp 4 2 p f0 p c1 p p c2 c3 p p p p",
+            "c15.vjoin dzkp 6 2 c0 c1 p p p f2 p c3 p c4 c5 p p p p",
+            // all complete: batches of 2 / 4, partial last batch, batch size 1, one batch for everything
+            "c15.vjoin dzkp 5 2 c0 c1 c2 c3 c4 p p p p p p p p p",
+            "c15.vjoin dzkp 6 4 c5 c4 p c3 c2 p c1 c0 p p p p p p p p p",
+            "c15.vjoin dzkp 3 1 c2 p c0 p c1 p p p",
+            "c15.vjoin dzkp 3 18446744073709551615 c0 c1 p c2 p p p p p",
+            "c15.vjoin sh 3 2 c2 p c0 p p c1 p p p p",
+            // an error in the middle of a batch: the earlier records of that batch are never released
+            "c15.vjoin dzkp 4 4 c0 f1 c2 c3 p p p p",
+            "c15.vjoin sh 4 4 c0 f1 c2 c3 p p p p p p",
+            // two errors
+            "c15.vjoin dzkp 4 2 f0 f2 p p p c1 c3 p p p p",
+            // nothing to join
+            "c15.vjoin dzkp 1 2 p c0 p p p",
+        ] {
+            out.push(s.to_string());
+        }
+        // ---- the first error at the start of a batch, for every batch size / position / state of the other tasks
+        for rpb in [2usize, 4, 8] {
+            for batches in 1..=3usize {
+                for eb in 0..batches {
+                    let n = batches * rpb - if batches > 1 && eb + 1 < batches { rng.usize_below(rpb) } else { 0 };
+                    let e = eb * rpb;
+                    for style in 0..4 {
+                        let mut ops: Vec<String> = vec![];
+                        let mut before: Vec<usize> = (0..e).collect();
+                        if style % 2 == 1 {
+                            rng.shuffle(&mut before);
+                        }
+                        for i in &before {
+                            ops.push(format!("c{i}"));
+                            if style == 3 {
+                                ops.push("p".into());
+                            }
+                        }
+                        if style >= 2 {
+                            // some of the later records complete as well, but never the whole batch of the failing one
+                            for i in e + 1..n {
+                                if i != e + 1 && rng.bool() {
+                                    ops.push(format!("c{i}"));
+                                }
+                            }
+                        }
+                        ops.push(format!("f{e}"));
+                        for _ in 0..2 * e + 4 {
+                            ops.push("p".into());
+                        }
+                        out.push(script_line("dzkp", n, rpb, &ops));
+                    }
+                }
+            }
+        }
+        // ---- random scripts: completion order, error positions, polls in between
+        for k in 0..(if thorough { 6000 } else { 600 }) {
+            let kind = if k % 5 == 4 { "sh" } else { "dzkp" };
+            let rpb = *rng.pick(&[1usize, 2, 2, 4, 4, 8]);
+            let n = 1 + rng.usize_below(if rpb == 8 { 16 } else { 10 });
+            let mut order: Vec<usize> = (0..n).collect();
+            if rng.below(3) > 0 {
+                rng.shuffle(&mut order);
+            }
+            if rng.below(3) == 0 {
+                order.truncate(rng.usize_below(n + 1));
+            }
+            let nerr = match rng.below(4) { 0 => 0, 1 | 2 => 1, _ => 2 };
+            let errs: Vec<usize> = (0..nerr).map(|_| if rng.bool() { rpb * rng.usize_below(n.div_ceil(rpb)) } else { rng.usize_below(n) }).collect();
+            let mut ops: Vec<String> = vec![];
+            for i in &order {
+                ops.push(if errs.contains(i) { format!("f{i}") } else { format!("c{i}") });
+                for _ in 0..rng.below(3) {
+                    ops.push("p".into());
+                }
+            }
+            for _ in 0..2 * n + 3 {
+                ops.push("p".into());
+            }
+            out.push(script_line(kind, n, rpb, &ops));
+        }
+        // ---- through try_collect on a real runtime
+        for s in [
+            "c15.vcollect dzkp 4 4 0",
+            "c15.vcollect dzkp 8 4 4",
+            "c15.vcollect dzkp 6 2 4",
+            "c15.vcollect dzkp 5 2 -",
+            "c15.vcollect sh 4 4 1",
+        ] {
+            out.push(s.to_string());
+        }
+        out
+    }
+
+    #[test]
+    fn verif_c15_validated() {
+        // one TestWorld for the whole suite; every request gets its own gate (`malicious_contexts` / `contexts` hand out
+        // a limited number of gates per world: called once, then narrowed). Nothing is ever multiplied, so no message
+        // is sent: the runtime only has to exist for the in-memory transport's listener tasks.
+        let rt = tokio::runtime::Builder::new_current_thread().enable_all().build().unwrap();
+        let _guard = rt.enter();
+        let world = TestWorld::<NotSharded>::default();
+        let counter = std::cell::Cell::new(0usize);
+        let [mal, _, _] = world.malicious_contexts();
+        let [sh, _, _] = world.contexts();
+        run_suite("c15_validated", generate, |req| {
+            let t: Vec<&str> = req.split(' ').collect();
+            let k = counter.get();
+            counter.set(k + 1);
+            let step = format!("c15v{k}");
+            let (mal, sh) = (mal.narrow(&step), sh.narrow(&step));
+            match t[0] {
+                "c15.vjoin" => exec_vjoin(mal, sh, &t),
+                "c15.vcollect" => exec_vcollect(mal, sh, &t),
+                r => panic!("harness: unknown request {r}"),
+            }
+        });
+    }
+}
